@@ -98,8 +98,26 @@ def spec_sample_delay(c, self, f, ref_freq, sample_rate):
 
 
 DMQ = "pulsarbat.transforms.dedispersion.DispersionMeasure"
-CONTRACTS.append(Contract(f"{DMQ}.time_delay", spec_time_delay, inst_delay(False), props=("C06",)))
-CONTRACTS.append(Contract(f"{DMQ}.sample_delay", spec_sample_delay, inst_delay(True), props=("C06",)))
+def _delay_tol(label, used):
+    """The delay is a difference of two terms K DM / f^2: its rounding error is relative to those terms (1e-15 of
+    them), not to the possibly much smaller -- or zero -- difference."""
+    from pyvc.concrete import Tol
+    try:
+        dm, sr = abs(float(Fraction(used.get("DM", 1)))), abs(float(Fraction(used.get("sr", 1))))
+        fs = [abs(float(Fraction(v))) for k, v in used.items() if k in ("f", "ref") or k.startswith("f[") or k.startswith("f_")]
+        fmin = min([x for x in fs if x > 0] or [1.0])
+        term = 4.15e15 * dm / fmin ** 2 * max(sr, 1.0)        # K in s Hz^2 cm^3/pc, generous
+        return Tol(num_abs=1e-12 * term, data_abs=1e-12 * term, data_rel=1e-9)
+    except Exception:
+        return None
+
+
+_tdc = Contract(f"{DMQ}.time_delay", spec_time_delay, inst_delay(False), props=("C06",))
+_tdc.tol_fn = _delay_tol
+CONTRACTS.append(_tdc)
+_sdc = Contract(f"{DMQ}.sample_delay", spec_sample_delay, inst_delay(True), props=("C06",))
+_sdc.tol_fn = _delay_tol
+CONTRACTS.append(_sdc)
 
 
 # lemmas over the contract of time_delay: antisymmetry and additivity along chains
@@ -258,6 +276,7 @@ def inst_incoherent():
             return (z, dm_value(interp, nm)), {}
         inst = Instance(f"{cls},nchan=any,t0={int(has_t0)},ref=none", build)
         inst.generalisation = True
+        inst.tier = "thorough"       # ~3 min of nonlinear solving when 16 jobs share the machine
         out.append(inst)
     for cls, extra in (("RadioSignal", 0), ("IntensitySignal", 1), ("FullStokesSignal", 0), ("BasebandSignal", 0), ("DualPolarizationSignal", 0)):
         for nchan in (1, 2, 3):
@@ -489,7 +508,11 @@ def inst_coherent():
         def build(interp, ctx, nm, inst=inst):
             (DM, z), kw = inst.build(interp, ctx, nm)
             return (z, DM), kw
-        out.append(Instance(inst.label, build))
+        i2 = Instance(inst.label, build)
+        if getattr(inst, "generalisation", False):
+            i2.generalisation = True
+            i2.tier = "thorough"
+        out.append(i2)
     # supplied chirp (2-D, broadcast over trailing dims)
     for cls in ("BasebandSignal", "DualPolarizationSignal"):
         def build(interp, ctx, nm, cls=cls):
